@@ -4,7 +4,7 @@
 
 use mmv::case::{Case, Engine, Prop};
 use mmv::ctx::{Ctx, NS, S, SNAMES};
-use mmv::dispatch::{capacity_of, caps_for_kind, run_case};
+use mmv::dispatch::{capacity_of, caps_for_kind, resolve_names, run_case, to_text_named};
 use mmv::plan::{campaigns, nontrivial, rule_text, Campaign};
 use mmv::tl;
 use proptest::prelude::*;
@@ -264,14 +264,21 @@ fn univ_for(n: usize, sel: u8) -> u8 {
 
 fn strategy(prop: Prop, camp: Campaign) -> impl Strategy<Value = Case> {
     let max = camp.max_ops;
-    (0..camp.kinds.len(), 0u8..8, 0u8..5, 0u8..4, any::<u8>(), proptest::collection::vec(any::<[u8; 4]>(), 0..=max)).prop_map(move |(ki, cap, cap2, us, mode, ops)| {
-        let kind = camp.kinds[ki];
+    // VERIF_SAFE_KINDS=1 (set by the check script after the runner was killed while deciding a
+    // property that does not own crashes): leave out the heap-owning payload kind, under which a
+    // double drop inside the library is a double free that kills the process, so that the
+    // property's own oracle gets to decide on the ledger-tracked and plain kinds.
+    let safe = std::env::var("VERIF_SAFE_KINDS").map(|v| v == "1").unwrap_or(false);
+    let kinds: Vec<u8> = camp.kinds.iter().copied().filter(|k| !(safe && *k == 2)).collect();
+    let kinds = if kinds.is_empty() { camp.kinds.to_vec() } else { kinds };
+    (0..kinds.len(), 0u8..8, 0u8..5, 0u8..4, any::<u8>(), proptest::collection::vec(any::<[u8; 4]>(), 0..=max)).prop_map(move |(ki, cap, cap2, us, mode, ops)| {
+        let kind = kinds[ki];
         let l = caps_for_kind(kind);
         let cap = match camp.caps {
             Some(cs) => cs[cap as usize % cs.len()] % l.len() as u8,
             None => cap % l.len() as u8,
         };
-        let mut c = Case { engine: camp.engine, prop, kind, cap, cap2, univ: 1, mode, fuse: -1, ops };
+        let mut c = Case { engine: camp.engine, prop, kind, cap, cap2, univ: 1, mode, fuse: -1, ops, named: vec![] };
         if matches!(camp.engine, Engine::SetAlg | Engine::MapEq) {
             c.cap %= 5;
             let n = mmv::case::CAPS2[c.cap as usize].max(mmv::case::CAPS2[c.cap2 as usize % 5]);
@@ -443,7 +450,7 @@ fn write_replay(prop: Prop, case: &Case, msg: &str) -> PathBuf {
     let path = dir.join(format!("{}-{:016x}.case", prop.name(), case.hash64()));
     let mut comments = vec![format!("violation: {msg}"), format!("capacity N = {}", capacity_of(case))];
     comments.extend(trace_of(case, prop));
-    let _ = std::fs::write(&path, case.to_text(&comments));
+    let _ = std::fs::write(&path, to_text_named(case, &comments));
     path
 }
 
@@ -459,6 +466,10 @@ fn replay_corpus(prop: Prop, agg: &mut Agg, known: &Known) {
             continue;
         };
         case.prop = prop;
+        if let Err(e) = resolve_names(&mut case) {
+            eprintln!("warning: {}: {e}", f.display());
+            continue;
+        }
         let cx = exec(&case, prop, false);
         agg.absorb_ctx(&case, &cx, prop);
         agg.cases += 1;
@@ -490,6 +501,7 @@ fn main() {
         let t = std::fs::read_to_string(path).expect("cannot read replay file");
         let mut case = Case::from_text(&t).expect("cannot parse replay file");
         case.prop = prop;
+        resolve_names(&mut case).expect("cannot resolve op names of the replay file");
         let tr = trace_of(&case, prop);
         for l in &tr {
             println!("{l}");
@@ -514,6 +526,9 @@ fn main() {
             let Ok(t) = std::fs::read_to_string(&f) else { continue };
             let Ok(mut case) = Case::from_text(&t) else { continue };
             case.prop = prop;
+            if resolve_names(&mut case).is_err() {
+                continue;
+            }
             println!("case: {}", f.display());
             let cx = exec(&case, prop, false);
             n += 1;
@@ -548,7 +563,7 @@ fn main() {
         case.kind %= 3;
         case.ops.truncate(96);
         case.univ = (case.univ % 21).max(1);
-        std::fs::write(args.get(5).expect("out"), case.to_text(&["decoded from a libFuzzer artifact".into()])).expect("write");
+        std::fs::write(args.get(5).expect("out"), to_text_named(&case, &["decoded from a libFuzzer artifact".into()])).expect("write");
         std::process::exit(0);
     }
     if args[2] == "--dump" {
